@@ -322,7 +322,10 @@ func NewResponsePacket(cookies [][]byte, key []byte, uniqueid []byte) (pkt Packe
 	uid.ID = uniqueid
 	pkt.UniqueID = uid
 
-	lencookies := len(cookies) * (4 + len(cookies[0]))
+	lencookies := 0
+	for _, c := range cookies {
+		lencookies += extFieldLen(len(c))
+	}
 	buf := make([]byte, lencookies)
 	var err error
 	pos := 0
